@@ -2,6 +2,7 @@
 package storesim
 
 import (
+	"bytes"
 	"sync"
 	"encoding/json"
 	"fmt"
@@ -28,7 +29,9 @@ type rec = map[string]interface{}
 // canon gives the canonical text of a JSON value (the atom TLC compares).
 func canon(raw json.RawMessage) string {
 	var v interface{}
-	if err := json.Unmarshal(raw, &v); err != nil {
+	dec := json.NewDecoder(bytes.NewReader(raw))
+	dec.UseNumber() // (numbers are compared as written, not as float64)
+	if err := dec.Decode(&v); err != nil {
 		return "!" + string(raw)
 	}
 	// a data value that wraps a primitive stands for that primitive ({"data":null} is null, {"data":12} is 12):
@@ -259,7 +262,19 @@ type c10world struct {
 // value pools: concrete JSON values for the abstract alphabet
 var c10vals = []interface{}{1, `a"b`, res.Ref("test.other.x"), res.SoftRef("test.soft.y"), res.DataValue[map[string]interface{}]{Data: map[string]interface{}{"x": []int{1}}}, nil, true, 2.5,
 	// a data value whose payload is null (what an unset DataValue marshals to)
-	res.DataValue[interface{}]{Data: nil}}
+	res.DataValue[interface{}]{Data: nil},
+	// integers that differ but are the same float64
+	int64(9007199254740993), int64(9007199254740992), res.DataValue[[]int64]{Data: []int64{9007199254740993}}, res.DataValue[[]int64]{Data: []int64{9007199254740992}}}
+
+// nC10vals is the number of pool values a configuration draws from: the integers beyond float64 precision come
+// last and are left to the mock store (the untyped badger store decodes what it stored into float64, so such a
+// number is not a value that store can hold)
+func nC10vals(cfg c10cfg) int {
+	if cfg.backend == "badger" {
+		return len(c10vals) - 4
+	}
+	return len(c10vals)
+}
 
 func newC10World(cfg c10cfg) (*c10world, error) {
 	w := &c10world{cfg: cfg, base: "test.r."}
@@ -560,7 +575,7 @@ func (w *c10world) concurrentResources(seed int64, n, k int) ([]rec, error) {
 	mk := func(rng *rand.Rand) interface{} {
 		vals := make([]int, rng.Intn(6))
 		for i := range vals {
-			vals[i] = rng.Intn(len(c10vals))
+			vals[i] = rng.Intn(nC10vals(w.cfg))
 		}
 		if w.cfg.typ == "model" {
 			m := map[string]interface{}{}
@@ -776,7 +791,7 @@ func RunC10(c *core.Ctx) {
 					n := rng.Intn(5)
 					vals := make([]int, n)
 					for i := range vals {
-						vals[i] = rng.Intn(len(c10vals))
+						vals[i] = rng.Intn(nC10vals(cfg))
 					}
 					if cfg.typ == "model" {
 						m := map[string]interface{}{}
